@@ -17,7 +17,8 @@ use virtio_drivers::transport::Transport;
 use virtio_drivers::Error;
 
 pub const GUEST_CID: u64 = 0x42;
-pub const CAPACITY: u32 = 256;
+/// per-connection buffer capacity (deliberately not a power of two)
+pub const CAPACITY: u32 = 250;
 // same CID / different port, and same port / CIDs that differ only above bit 31
 const PEERS: [(u64, u32); 3] = [(2, 1000), (2, 1001), (0x1_0000_0002, 1000)];
 const PORTS: [u32; 3] = [80, 81, 9000];
@@ -79,7 +80,7 @@ impl WithT for Run<'_> {
     type Out = Result<(), String>;
     fn call<T: Transport + 'static>(self, t: T) -> Self::Out {
         if self.c.big {
-            self.body::<T, 4096>(t, 4096, 2000)
+            self.body::<T, 4096>(t, 4000, 2000)
         } else {
             self.body::<T, 512>(t, CAPACITY, 100)
         }
